@@ -2,7 +2,7 @@
 # Runs every seeded change under /verif/seeded against its property's check (default: quick).
 tier=${1:-quick}
 for d in /verif/seeded/*/; do
-  id=$(basename $d); prop=$(echo $id | cut -d- -f1)
+  id=$(basename $d); prop=$(echo $id | cut -d- -f1 | cut -c1-3)
   out=$(SEED_LINES=3 /verif/tools/verify_seed.sh $d $id $prop $tier 2>&1)
   suite=$(echo "$out" | grep -c "suite: green"); demo1=$(echo "$out" | grep -c "vseed.*exit 1"); demo0=$(echo "$out" | grep -c "/repo: exit 0")
   det=$(echo "$out" | grep -c "^VIOLATION property=$prop")
